@@ -1,7 +1,7 @@
 (* C19 — property theorems only.  Each is closed by `exact <lemma>` and followed by
    Print Assumptions; the check re-compiles this file on every run. *)
 From Coq Require Import List NArith ZArith Bool.
-From MW Require Import Common.Str C19.Gen_writers C19.Model C19.ModelReq C19.Proofs C19.ProofsCD C19.ProofsLife C19.ProofsCompose C19.ProofsReq.
+From MW Require Import Common.Str C19.Gen_writers C19.Model C19.ModelReq C19.Proofs C19.ProofsCD C19.ProofsLife C19.ProofsCompose C19.ProofsReq C19.ModelConn C19.ProofsConn.
 Import ListNotations.
 
 (* `status nfkd r m w` is do_render_status after its two qinfo calls: r / m are the `_json()` snapshots of
@@ -384,3 +384,41 @@ Print Assumptions C19_example_queue.
 Example C19_example_decoding : exists dec_err : N -> pyval, forall n, truthy (dec_err n) = negb (n =? 0)%N.
 Proof. exact ex_decoding. Qed.
 Print Assumptions C19_example_decoding.
+
+(* ---- CLIENT CONNECTIONS of the queue server (ModelConn.v).  Every connection has a handler that remembers the job
+   OBJECTS pulled through it and, when the connection closes, hands the unfinished ones back (QPlugin.shutdown ->
+   workq.pushjob: id2job[j.jobid] = j).  An id stands for several job objects over time (a killed or dropped job is
+   re-added as a new object), so pushjob can overwrite the entry render_status reads.  cstate: id -> registered
+   incarnation, done/killed per incarnation, held jobs per connection; crun dec = any history of adds, pulls, finishes,
+   kills, timeouts, drops, disconnects; dec_repo = the test of qserve.py:104 (`if j.done: continue`). *)
+
+(* closing ANY connection after ANY history leaves every id registered to the same job object in the same state:
+   the status command answers the same before and after *)
+Theorem C19_disconnect_preserves_registration : forall ops c id,
+  let s := crun dec_repo ops in
+  let s' := cstep dec_repo s (CDisconnect c) in
+  table s' id = table s id /\ jdone s' = jdone s /\ jkilled s' = jkilled s /\ served_done s' id = served_done s id.
+Proof. exact disconnect_preserves_registration. Qed.
+Print Assumptions C19_disconnect_preserves_registration.
+
+(* the invariant behind it: an unfinished job object held by a connection IS the one registered under its id *)
+Theorem C19_held_unfinished_is_registered : forall ops c id i,
+  let s := crun dec_repo ops in In (id, i) (held s c) -> jdone s i = false -> table s id = Some i.
+Proof. exact held_unfinished_is_registered. Qed.
+Print Assumptions C19_held_unfinished_is_registered.
+
+(* seeded/C19-7 (shutdown asks the id->job table instead of its own job object): refuted.  Pulled by connection 1,
+   killed, re-added, pulled by connection 2, connection 1 closes: the killed incarnation 0 is registered again over the
+   live incarnation 1, the status source says done+killed, and worker 2's finish then hits the stale object - the live
+   job never becomes done.  The same history is harmless with the repo's test (last conjunct).
+   Also the non-vacuity example of the two theorems above: a history with a pull, a kill, a re-add and a disconnect. *)
+Theorem C19_disconnect_by_id_refuted :
+  let s := crun dec_byid byid_history in
+  let s' := cstep dec_byid s (CDisconnect 1) in
+  let s'' := cstep dec_byid s' (CFinish 2 jid) in
+  table s jid = Some 1 /\ served_done s jid = Some false /\
+  table s' jid = Some 0 /\ served_done s' jid = Some true /\ jkilled s' 0 = true /\ jdone s' 1 = false /\
+  table s'' jid = Some 0 /\ jdone s'' 1 = false /\
+  table (cstep dec_repo (crun dec_repo byid_history) (CDisconnect 1)) jid = Some 1.
+Proof. exact disconnect_byid_refuted. Qed.
+Print Assumptions C19_disconnect_by_id_refuted.
